@@ -94,7 +94,8 @@ pub fn schedules(cfg: &DCfg, n: usize, positions: &[usize], flush_positions: &[u
     // change followed by output-limited calls (stored blocks copied straight from the input with leftover bits)
     let away: (i32, i32) = if cfg.level == 0 { (6, 0) } else { (0, 0) };
     let back: (i32, i32) = (lv, cfg.strategy);
-    let mids: Vec<usize> = flush_positions.iter().copied().filter(|&x| x > 0 && x < n).collect();
+    // (only for inputs that can fill something: on tiny inputs these are covered by the single-deviation schedules)
+    let mids: Vec<usize> = if n > 16 { flush_positions.iter().copied().filter(|&x| x > 0 && x < n).collect() } else { vec![] };
     let w = cfg.w_size();
     for (ai, &a) in mids.iter().enumerate() {
         // second change at the next lattice positions and at the distances that make a stored-phase call
